@@ -386,6 +386,37 @@ def run_ambient(ctx, doubles):
                 break
 
 
+def run_hist_order(ctx):
+    """le labels must not depend on which histograms the process rendered earlier: bounds that compare equal but are different
+    doubles (0.0 / -0.0) or that another histogram already used, in both creation orders, children and repeated collects"""
+    from prometheus_client import CollectorRegistry, Histogram
+    rng = ctx.rng
+    pool = [0.0, -0.0, -1.0, -2.5, 1.0, 2.5, 1e6, 1234567.0, -1234567.0, 5e-324, 0.1]
+    seqs = [[[-0.0, 1.0], [0.0, 1.0], [-0.0, 1.0]], [[0.0, 1.0], [-0.0, 1.0], [0.0, 1.0]], [[-2.5, -0.0, 2.5], [-2.5, 0.0, 2.5]]]
+    for _ in range(12 if ctx.tier == 'quick' else 120):
+        seqs.append([sorted(set(rng.sample(pool, rng.randint(1, 4))), key=lambda v: (v, math.copysign(1, v))) for _ in range(rng.randint(2, 4))])
+    for seq in seqs:
+        ctx.case(nontrivial_key=('hist-order', tuple(tuple(lib.bits_of(b) for b in bs) for bs in seq)))
+        ctx.count('hist-le-order')
+        for bs in seq:
+            bs = list(bs)
+            try:
+                h = Histogram('h', 'd', ['l'], buckets=bs + [math.inf], registry=CollectorRegistry())
+                h.labels('a').observe(1); h.labels('b')
+                got = []
+                for _k in range(2):
+                    got.append([s.labels['le'] for s in h.collect()[0].samples if s.name == 'h_bucket' and s.labels['l'] == 'a'])
+            except Exception as e:
+                ctx.fail('C13:hist-raises', 'Histogram(buckets=%r) raised %s' % (bs, type(e).__name__), {'order_bits': [[lib.bits_of(b) for b in x] for x in seq]})
+                continue
+            for les in got:
+                for b, le in zip(bs, les):
+                    why = oracle(b, le)
+                    if why:
+                        ctx.fail('C13:hist-le-order', 'after histograms with bounds %r, bound %r (bits %016x) is exposed as le=%r: %s'
+                                 % (seq, b, lib.bits_of(b), le, why), {'order_bits': [[lib.bits_of(b) for b in x] for x in seq]})
+
+
 def utils_go(b):
     from prometheus_client import utils
     return utils.floatToGoString(b)
@@ -408,6 +439,7 @@ def run(ctx):
     sample = mix + [ds[i] for i in range(0, len(ds), max(1, len(ds) // (600 if ctx.tier == 'quick' else 6000)))]
     rng.shuffle(sample)
     run_expo(ctx, mix + sample)
+    run_hist_order(ctx)
     run_hist(ctx, [x for x in mix + sample if x == x and 0 < x < math.inf] + [1e6, 1e7, 2.5e15, 1e16, 1e21, 1e22, 0.005, 123456789.0])
 
 
@@ -415,6 +447,8 @@ def replay(ctx, case):
     c = case.get('case', {})
     if 'int' in c:
         run_ints(ctx)
+    elif 'order_bits' in c:
+        run_hist_order(ctx)
     elif 'bounds_bits' in c:
         run_hist(ctx, [lib.from_bits(int(b)) for b in c['bounds_bits']])
     elif 'bits_list' in c:
